@@ -89,6 +89,33 @@ CLAIMED = {
             "subsets; MultiIndex flattening for all small shapes and index values; every corpus kernel is compiled with the optimiser passes enabled and with each/all disabled and must agree on every entity/code pair.",
             "Folding compared exactly on three symbol environments; optimiser variants compared to 1e-11 (floating-point reassociation).",
             "DESIGN.md §4 C17"),
+    "C12": ("history-runner", "stateless exhaustive enumeration of all histories up to a depth x hash seeds, one fresh process each",
+            "All histories of depth <= 2 (quick) / <= 3 (thorough) over a 9-letter alphabet of prior actions (object creation, other compilations incl. numba/JIT/macro elements/shared option dicts, "
+            "numpy print options) x PYTHONHASHSEED values are executed in fresh processes; afterwards 10 targets are generated in rotated order and compared byte for byte with the empty-history seed-0 text.",
+            "Histories and seeds are bounded sets; later targets in a process are observed under the correspondingly longer histories.",
+            "DESIGN.md §4 C12, §2.6"),
+    "C13": ("history-runner", "exhaustive enumeration: all pairs of a request catalogue, all ordered in-process request pairs, all histories x seeds, option-source combinations",
+            "Names are obtained from the real compile_forms/compile_expressions path (cache lookup intercepted). All pairs of 46 catalogue requests: differing source or build flags => differing module names; "
+            "all ordered pairs of 8 expression requests as in-process two-step histories (named, released, then the other) must reproduce the fresh names; histories x hash seeds in fresh processes; "
+            "the same option through pwd/user json vs API; multi-object requests are built with gcc (distinct valid identifiers).",
+            "'Would generate different kernels' = generated source with hashes normalised + compiler flags; bounded histories and seeds.",
+            "DESIGN.md §4 C13"),
+    "C18": ("oracle-engine", "bounded-exhaustive exploration: corpus x entity/code values, numba module executed against the compiled C kernel",
+            "For every configuration of the form corpus, every math-table entry and every expression recipe the numba module is executed as plain Python (numba.carray shim) and each kernel is compared "
+            "with the compiled C kernel on identical inputs for every entity/code pair; the text must be valid Python, declared array sizes must equal the contract's extents, descriptors must be equal field by field.",
+            "Plain-Python execution stands for numba.cfunc; slow kernels are skipped and counted.",
+            "DESIGN.md §4 C18"),
+    "C19": ("oracle-engine", "exhaustive outcome classification of the corpus + unsupported-construct alphabet + complete enumeration of quadrature-rule pairs",
+            "Every compile request (form corpus, expression corpus, unsupported constructs in each slot, edge forms) is classified by observed outcome (rejected before the compiler / accepted under "
+            "-std=c17 -Werror=implicit-function-declaration / compiler failed / hang); rejections must be on a committed list of legitimate ones; all pairs of quadrature rules per cell type "
+            "(degrees 0..30 x schemes + vertex) must have distinct ids, colliding pairs and a covering sample are compiled.",
+            "Supported fragment = grammar of DESIGN §3 minus mc/data/c19_rejections.json; valid C = gcc through the real cffi build.",
+            "DESIGN.md §4 C19"),
+    "C20": ("cli-runner", "exhaustive enumeration of option-source combinations (3^3 per option) and of command-line variants per UFL file",
+            "All demo files and generated files x command-line variants: expected files, stand-alone gcc -std=c17, header externs vs nm, aliases resolved through cffi ABI mode, every kernel vs the JIT "
+            "kernel, name maps vs the UFL file, numba output parses; every option in all 27 combinations of {absent, v1, v2} over {command line, pwd json, user json} in fresh processes must obey CLI > pwd > user > default.",
+            "Kernels compared with the JIT path on random data (no reference model here); effective options read from the generated file's option dump.",
+            "DESIGN.md §4 C20"),
 }
 
 NOT_YET = "check not built yet in this session (planned, see DESIGN.md §8); not claimed until its command exists"
@@ -137,6 +164,10 @@ def main():
 
 NA = {}
 ENGINES = [
+    {"name": "history-runner", "path": "mc/hist.py", "serves_properties": ["C12", "C13"],
+     "kind_free_text": "executes operation histories in fresh interpreters with chosen hash seeds, private cwd/XDG dirs, and observes generated text and names"},
+    {"name": "cli-runner", "path": "mc/checks/C20.py", "serves_properties": ["C20"],
+     "kind_free_text": "drives python -m ffcx in private directories, builds and links the output stand-alone, compares with the JIT path"},
     {"name": "parsers", "path": "mc/cparse.py", "serves_properties": ["C16", "C18"],
      "kind_free_text": "pycparser / Python-ast based parse-back of formatted text into a normal form shared with the L-AST"},
     {"name": "lvm", "path": "mc/lvm.py", "serves_properties": ["C07", "C08", "C17"],
